@@ -16,6 +16,7 @@ This private submodule is *not* intended for importation by downstream callers.
 # ....................{ IMPORTS                            }....................
 from beartype.claw._package.clawpkgtrie import (
     remove_beartype_pathhook_unless_packages_trie)
+from beartype.claw._package._clawpkgmake import make_conf_hookable
 from beartype.typing import (
     Iterator,
     Optional,
@@ -91,6 +92,12 @@ def beartyping(
     # beartype_all() function if any *OR* "None" otherwise.
     packages_trie_conf_if_hooked_old: Optional[BeartypeConf] = None
 
+    # Hookable beartype configuration globalized by the call to the
+    # beartype_all() function below if that call succeeds *OR* "None" otherwise
+    # (e.g., if the passed configuration is invalid). Note that that function
+    # globalizes this hookable variant rather than the passed configuration.
+    conf_hooked: Optional[BeartypeConf] = None
+
     # Attempt to...
     try:
         # With a "beartype.claw"-specific thread-safe reentrant lock...
@@ -105,6 +112,7 @@ def beartyping(
 
         # Globalize the passed beartype configuration.
         beartype_all(conf=conf)
+        conf_hooked = make_conf_hookable(conf)
 
         # Defer to the caller body of the parent "with beartyping(...):" block.
         yield
@@ -112,12 +120,18 @@ def beartyping(
     finally:
         # With a "beartype.claw"-specific thread-safe reentrant lock...
         with claw_lock:
-            # If the current global beartype configuration is still the passed
-            # beartype configuration, then the caller's body of the parent "with
-            # beartyping(...):" block has *NOT* itself called the beartype_all()
-            # function with a conflicting beartype configuration. In this
-            # case...
-            if claw_state.packages_trie_whitelist.conf_if_hooked == conf:
+            # If the current global beartype configuration is either:
+            # * Still the hookable variant of the passed beartype configuration,
+            #   then the caller's body of the parent "with beartyping(...):"
+            #   block has *NOT* itself called the beartype_all() function with a
+            #   conflicting beartype configuration.
+            # * "None", then the above call to the beartype_all() function
+            #   raised an exception *AFTER* the prior global beartype
+            #   configuration was nullified above.
+            #
+            # In either case...
+            conf_curr = claw_state.packages_trie_whitelist.conf_if_hooked
+            if conf_curr is None or conf_curr == conf_hooked:
                 # Restore the prior global beartype configuration if any.
                 claw_state.packages_trie_whitelist.conf_if_hooked = (
                     packages_trie_conf_if_hooked_old)
